@@ -41,7 +41,7 @@ def q_c(name):
 
 # (label, path, strip, applicability) - see build()
 KF05 = 'deletion-expressed-only-by-an-epoch-time-stamp'
-DIALECTS = ['plain', 'both-names', 'timestamps', 'diff-N', 'git', 'git-mode', 'orig', 'quoted', 'quoted-space', 'git-space', 'plus-first', 'prose', 'p0', 'p2', 'deep', 'git-rename']
+DIALECTS = ['plain', 'both-names', 'timestamps', 'diff-N', 'diff-N-east', 'diff-N-west', 'git', 'git-mode', 'orig', 'quoted', 'quoted-space', 'git-space', 'plus-first', 'prose', 'p0', 'p2', 'deep', 'git-rename']
 
 
 def build(dialect, case, rev):
@@ -75,12 +75,14 @@ def build(dialect, case, rev):
     if dialect in ('quoted', 'quoted-space'):
         spell_o, spell_n = q_c(oname.decode()), q_c(nname.decode())
     ts = b''
-    if dialect in ('timestamps', 'diff-N'):
+    if dialect in ('timestamps', 'diff-N', 'diff-N-east', 'diff-N-west'):
         ts = b'\t2020-01-02 03:04:05.000000000 +0000'
     # 'diff-N': what `diff -urN` writes - real names on both sides, the absent side marked by the epoch as its time stamp only
-    real_names = dialect in ('both-names', 'diff-N')
-    old_line = b'--- ' + (b'/dev/null' if (a_abs and not real_names) else spell_o) + (b'\t1970-01-01 00:00:00.000000000 +0000' if (ts and a_abs) else ts) + b'\n'
-    new_line = b'+++ ' + (b'/dev/null' if (b_abs and not real_names) else spell_n) + (b'\t1970-01-01 00:00:00.000000000 +0000' if (ts and b_abs) else ts) + b'\n'
+    # (-east/-west: the same instant as local time in another zone, without the fraction)
+    real_names = dialect in ('both-names', 'diff-N', 'diff-N-east', 'diff-N-west')
+    epoch = {'diff-N-east': b'\t1970-01-01 05:30:00 +0530', 'diff-N-west': b'\t1969-12-31 19:00:00.000000000 -0500'}.get(dialect, b'\t1970-01-01 00:00:00.000000000 +0000')
+    old_line = b'--- ' + (b'/dev/null' if (a_abs and not real_names) else spell_o) + (epoch if (ts and a_abs) else ts) + b'\n'
+    new_line = b'+++ ' + (b'/dev/null' if (b_abs and not real_names) else spell_n) + (epoch if (ts and b_abs) else ts) + b'\n'
     head = b''
     if dialect == 'git-space':
         # the way git writes a name with blanks: unquoted, a tab behind it on the ---/+++ lines
@@ -144,7 +146,7 @@ def case_run(task):
     dst = case['A'] if rev else case['B']
     if case['nh'] == 1 and case['c'] == 0 and case['zero'] and case['top'] and src and dst and not case['a_abs'] and not case['b_abs']:
         tags = {KF01}
-    if dialect == 'diff-N' and (case['a_abs'] if rev else case['b_abs']):
+    if dialect.startswith('diff-N') and (case['a_abs'] if rev else case['b_abs']):
         tags = {KF05}
     mode = o.cls if o.cls not in ('0', '1') else ('not-applied' if o.cls == '1' else 'wrong-tree')
     out['violations'].append((wsweep.cls(tags), mode, {'kind': 'cli', 'files': {k: [common.b2s(v[0]), v[1]] for k, v in start.items()}, 'patches': {'p1.patch': common.b2s(text)}, 'series': [line],
